@@ -107,3 +107,7 @@ for _pid in ("C07", "C08", "C09", "C12", "C13", "C16"):
 for _pid, _p in PROPERTIES.items():
     if gameplay.rule_l1_lazy_reuse not in _p["rules"]:
         _p["rules"].insert(-1, gameplay.rule_l1_lazy_reuse)
+
+for _pid, _p in PROPERTIES.items():
+    for _r in (hygiene.rule_cached_results_immutable, hygiene.rule_decorators_transparent):
+        _p["rules"].insert(-1, _r)
